@@ -12,6 +12,14 @@
 #include <exception>
 
 std::vector<std::string> g_avoid;
+static void write_file_raw(const char *path, const std::string &s)
+{
+        FILE *f = fopen(path, "w");
+        if (f) {
+                fwrite(s.data(), 1, s.size(), f);
+                fclose(f);
+        }
+}
 
 // AddressSanitizer flavour: the C sources of the library are instrumented (assembly is not); reports become SIGABRT, which
 // the fault classifier turns into C05.abort.  ASan cannot continue after a report, so a violation ends the worker at once
@@ -48,8 +56,49 @@ static double now_s()
 void sim_run_begin(); // cpu/sched seams reset (cpu.cc)
 void sim_run_end();
 
+// a crash inside library code outside any guarded call (rare: init/reset/set_* helpers) ends the process; it is reported
+// as a violation with the current plan as the replay file so that the driver can gate it like any other
+static const Json *g_current_plan = nullptr;
+static sigjmp_buf g_run_jb;
+static volatile int g_run_jb_armed = 0;
+static uint64_t g_foreign_crashes = 0;
+static std::string g_crash_outdir = ".", g_crash_prop;
+static int g_crash_worker = 0;
+static bool g_crash_is_replay = false;
+static void crash_hook(const char *sym, void *addr)
+{
+        if (!g_current_plan)
+                return;
+        std::string detail = strf("the library faulted at %s (address %p) in a call with valid arguments", sym, addr);
+        if (g_crash_is_replay) {
+                Json o = Json::obj();
+                o.set("oracle", "C05.crash").set("detail", detail).set("hash", "00000000000c4a54").set("events", 0);
+                printf("REPLAY %s\n", o.str().c_str());
+                fflush(stdout);
+                _exit(1);
+        }
+        std::string path = g_crash_outdir + strf("/viol_C05.crash_%d_%lld.json", g_crash_worker, (long long) g_current_plan->geti("index"));
+        Json rep = Json::obj();
+        rep.set("property", "C05").set("oracle", "C05.crash").set("detail", detail).set("plan", *g_current_plan);
+        write_file_raw(path.c_str(), rep.str());
+        if (g_crash_prop == "C05")
+                printf("VIOL property=C05 oracle=C05.crash index=%lld file=%s hash=00000000000c4a54 detail=%s\n", (long long) g_current_plan->geti("index"), path.c_str(), detail.c_str());
+        else {
+                if (g_foreign_crashes++ < 3)
+                        printf("NOTE foreign-violation property=C05 oracle=C05.crash index=%lld detail=%s\n", (long long) g_current_plan->geti("index"), detail.c_str());
+                if (g_run_jb_armed) { // another property's check: abandon this run and carry on with the next seed
+                        g_run_jb_armed = 0;
+                        siglongjmp(g_run_jb, 1);
+                }
+        }
+        printf("SUMMARY {\"worker\":%d,\"runs\":1,\"violations\":%d,\"foreign\":%d,\"counters\":{},\"samples\":[]}\n", g_crash_worker, g_crash_prop == "C05" ? 1 : 0, g_crash_prop == "C05" ? 0 : 1);
+        fflush(stdout);
+        _exit(g_crash_prop == "C05" ? 1 : 0);
+}
+
 static RunResult execute(const Json &plan, std::vector<std::string> *log = nullptr)
 {
+        g_current_plan = &plan;
         RunResult rr;
         Hist h;
         const Profile *p = find_profile(plan.gets("prof"));
@@ -93,6 +142,21 @@ static RunResult execute(const Json &plan, std::vector<std::string> *log = nullp
         if (log)
                 *log = h.log;
         return rr;
+}
+
+static bool execute_safely(const Json &plan, RunResult &rr, std::vector<std::string> *log)
+{
+        if (sigsetjmp(g_run_jb, 0) == 0) {
+                g_run_jb_armed = 1;
+                rr = execute(plan, log);
+                g_run_jb_armed = 0;
+                return true;
+        }
+        g_run_jb_armed = 0;
+        t_guard = nullptr;
+        sim_run_end();
+        g_arena.run_end();
+        return false;
 }
 
 // ------------------------------------------------------------------ shrinking
@@ -256,6 +320,8 @@ static int cmd_replay(const std::string &path, bool trace)
                 return 2;
         }
         g_trace = trace ? 2 : 0;
+        g_crash_is_replay = true;
+        g_crash_hook = crash_hook;
         const Json *pl = plan.find("plan");
         RunResult rr = execute(pl ? *pl : plan);
         Json o = Json::obj();
@@ -328,6 +394,10 @@ static int cmd_run(int argc, char **argv)
                 fprintf(stderr, "no profiles\n");
                 return 2;
         }
+        g_crash_outdir = outdir;
+        g_crash_prop = prop;
+        g_crash_worker = worker;
+        g_crash_hook = crash_hook;
         double t0 = now_s();
         uint64_t runs = 0, nontrivial = 0, events = 0, det_pairs = 0, own_viol = 0, foreign = 0, calls = 0;
         std::unordered_set<uint64_t> sigs, sigs_nt;
@@ -349,7 +419,13 @@ static int cmd_run(int argc, char **argv)
                 std::vector<std::string> log1;
                 if (getenv("SIM_TRACE_DET"))
                         g_trace = 1;
-                RunResult rr = execute(plan, &log1);
+                RunResult rr;
+                if (!execute_safely(plan, rr, &log1)) {
+                        runs++;
+                        foreign++;
+                        foreign_by["C05.crash"]++;
+                        continue;
+                }
                 runs++;
                 if (rr.violated() && g_asan && rr.oracle == "C05.abort") {
                         std::string path = outdir + strf("/viol_%s_%d_%llu.json", rr.oracle.c_str(), worker, (unsigned long long) index);
